@@ -9,6 +9,7 @@
   call, over every operation and every argument.  "No C-level fault" (`assert(_ref_count > 0)`, a put on
   freed memory, running out of fuel) is the `∃ …, … = .ok …` of `no_fault`.
 -/
+import JsonC.Lemmas.TranslatedHeap
 import JsonC.Lemmas.HeapRun
 
 namespace JsonC.Heap
